@@ -20,8 +20,21 @@ fn main() {
     // Panics of the subject are caught per execution and reported as violations; keep stderr quiet
     // but remember the location for the message.
     std::panic::set_hook(Box::new(|_info| {}));
+    // anyhow captures a backtrace per error when backtraces are enabled; that costs ~50 us per
+    // rejected input and changes nothing we observe.
+    std::env::set_var("RUST_LIB_BACKTRACE", "0");
+    std::env::set_var("RUST_BACKTRACE", "0");
     let args: Vec<String> = std::env::args().skip(1).collect();
     if args.is_empty() {
+        usage();
+    }
+    if args[0] == "--probe" {
+        // child-process probes (a crash here is observed by the parent as a failed probe)
+        if args.get(1).map(|s| s.as_str()) == Some("c16deep") {
+            let d: usize = args[2].parse().unwrap();
+            let sh: usize = args[3].parse().unwrap();
+            std::process::exit(props::c16::probe_deep(d, sh));
+        }
         usage();
     }
     if args[0] == "--list" {
